@@ -1,0 +1,167 @@
+//go:build verif
+
+package store
+
+import (
+	"sync"
+
+	"github.com/feichai0017/NoKV/pb"
+	myraft "github.com/feichai0017/NoKV/raft"
+)
+
+// Observers and accessors for the verification harness (/verif, properties C22
+// and C23). Add-only; compiled only with -tags verif.
+
+// VerifApplyEvent describes one command handed to the store's applier by
+// commandPipeline.applyEntries, reported after the applier returned and before
+// the matching local proposal (if any) is completed.
+type VerifApplyEvent struct {
+	StoreID   uint64
+	RegionID  uint64
+	Index     uint64
+	Term      uint64
+	RequestID uint64
+	Req       *pb.RaftCmdRequest
+	Resp      *pb.RaftCmdResponse
+	Err       error
+}
+
+// VerifReadEvent describes one ReadCommand that obtained a read index and
+// finished waiting for it to be applied; reported before the read is executed.
+type VerifReadEvent struct {
+	StoreID   uint64
+	ReadIndex uint64
+	Req       *pb.RaftCmdRequest
+}
+
+type verifObserver struct {
+	storeID uint64
+	apply   func(VerifApplyEvent)
+	read    func(VerifReadEvent)
+}
+
+var verifObservers sync.Map // *commandPipeline -> *verifObserver
+
+// VerifObserve installs the observers of this store (nil removes them).
+func (s *Store) VerifObserve(apply func(VerifApplyEvent), read func(VerifReadEvent)) {
+	if s == nil || s.command == nil {
+		return
+	}
+	if apply == nil && read == nil {
+		verifObservers.Delete(s.command)
+		return
+	}
+	verifObservers.Store(s.command, &verifObserver{storeID: s.storeID, apply: apply, read: read})
+}
+
+func verifObserveApply(cp *commandPipeline, entry myraft.Entry, req *pb.RaftCmdRequest, resp *pb.RaftCmdResponse, err error) {
+	o, ok := verifObservers.Load(cp)
+	if !ok {
+		return
+	}
+	if ob := o.(*verifObserver); ob.apply != nil {
+		ob.apply(VerifApplyEvent{
+			StoreID:   ob.storeID,
+			RegionID:  req.GetHeader().GetRegionId(),
+			Index:     entry.Index,
+			Term:      entry.Term,
+			RequestID: req.GetHeader().GetRequestId(),
+			Req:       req,
+			Resp:      resp,
+			Err:       err,
+		})
+	}
+}
+
+func verifObserveRead(s *Store, req *pb.RaftCmdRequest, index uint64) {
+	if s == nil || s.command == nil {
+		return
+	}
+	o, ok := verifObservers.Load(s.command)
+	if !ok {
+		return
+	}
+	if ob := o.(*verifObserver); ob.read != nil {
+		ob.read(VerifReadEvent{StoreID: ob.storeID, ReadIndex: index, Req: req})
+	}
+}
+
+// VerifPendingProposals returns the request ids that currently have a waiter.
+func (s *Store) VerifPendingProposals() []uint64 {
+	if s == nil || s.command == nil {
+		return nil
+	}
+	cp := s.command
+	cp.mu.Lock()
+	defer cp.mu.Unlock()
+	out := make([]uint64, 0, len(cp.proposals))
+	for id := range cp.proposals {
+		out = append(out, id)
+	}
+	return out
+}
+
+// VerifPipeline is a handle on a bare commandPipeline for differential tests
+// of nextProposalID / registerProposal / removeProposal / applyEntries.
+type VerifPipeline struct {
+	cp    *commandPipeline
+	props map[uint64]*commandProposal
+}
+
+// VerifNewPipeline builds a pipeline around the given applier.
+func VerifNewPipeline(applier func(*pb.RaftCmdRequest) (*pb.RaftCmdResponse, error)) *VerifPipeline {
+	return &VerifPipeline{cp: newCommandPipeline(applier), props: map[uint64]*commandProposal{}}
+}
+
+// NextID calls nextProposalID.
+func (v *VerifPipeline) NextID(term uint64) uint64 { return v.cp.nextProposalID(term) }
+
+// Register calls registerProposal and remembers the waiter under token.
+// It reports (registered, duplicate).
+func (v *VerifPipeline) Register(id, token uint64) (bool, bool) {
+	prop, err := v.cp.registerProposal(id)
+	if err != nil {
+		return false, true
+	}
+	if prop == nil {
+		return false, false
+	}
+	v.props[token] = prop
+	return true, false
+}
+
+// Remove calls removeProposal.
+func (v *VerifPipeline) Remove(id uint64) { v.cp.removeProposal(id) }
+
+// Apply calls applyEntries.
+func (v *VerifPipeline) Apply(entries []myraft.Entry) error { return v.cp.applyEntries(entries) }
+
+// Result polls the waiter remembered under token: done reports whether a
+// result was delivered.
+func (v *VerifPipeline) Result(token uint64) (resp *pb.RaftCmdResponse, err error, done bool) {
+	prop := v.props[token]
+	if prop == nil {
+		return nil, nil, false
+	}
+	select {
+	case r, ok := <-prop.ch:
+		if !ok {
+			return nil, nil, false
+		}
+		delete(v.props, token)
+		return r.resp, r.err, true
+	default:
+		return nil, nil, false
+	}
+}
+
+// Pending returns the ids that currently have a waiter.
+func (v *VerifPipeline) Pending() []uint64 {
+	v.cp.mu.Lock()
+	defer v.cp.mu.Unlock()
+	out := make([]uint64, 0, len(v.cp.proposals))
+	for id := range v.cp.proposals {
+		out = append(out, id)
+	}
+	return out
+}
